@@ -86,8 +86,11 @@ class DriverError(RuntimeError):
     pass
 
 
-def run_cases(fn_path: str, cases: list, jobs: int = 12, timeout: float = 20.0) -> list:
-    """Run fn(case) for every case in child processes; returns the results in order."""
+def run_cases(fn_path: str, cases: list, jobs: int = 12, timeout: float = 20.0, _confirming: bool = False) -> list:
+    """Run fn(case) for every case in child processes; returns the results in order.
+    A case that did not return within the time limit (or whose worker died) is run once more, alone and
+    with four times the limit, before it is reported as {"hang": True}: on a machine under heavy load a
+    slow case must not be taken for a call that never returns (a genuine endless loop hangs again)."""
     n = len(cases)
     results = [None] * n
     if n == 0:
@@ -140,6 +143,17 @@ def run_cases(fn_path: str, cases: list, jobs: int = 12, timeout: float = 20.0) 
                 _restart(w, results, active, spawn, died=False)
         if not progressed:
             time.sleep(0.01)
+    if not _confirming:
+        confirmed = 0
+        for i, r in enumerate(results):
+            if isinstance(r, dict) and r.get("hang") and confirmed < 3:
+                # (three confirmed hangs: the tree is broken, the remaining ones are not re-run)
+                again = run_cases(fn_path, [cases[i]], jobs=1, timeout=timeout * 4, _confirming=True)[0]
+                if isinstance(again, dict) and again.get("hang"):
+                    confirmed += 1
+                    r["confirmed"] = True
+                else:
+                    results[i] = again
     for i, r in enumerate(results):
         if r is None:
             raise DriverError(f"case {i} produced no result")
